@@ -70,6 +70,28 @@ overlayall)
   MUT_DIR="$t" ./mutants.sh ${2:-all}; rc=$?
   rm -rf "$t"; exit $rc
   ;;
+reverify)
+  # every stored change once more against the CURRENT /repo HEAD (nothing is stored): patch applies, builds, repository
+  # tests pass with it, demonstration fails with it and passes without it
+  for d in seeded/*/; do
+    id=$(basename "$d"); P=${id%%-*}
+    wt=$(mktemp -d /tmp/seedchk.XXXXXX); rmdir "$wt"
+    git -C /repo worktree add -q --detach "$wt" HEAD || exit 2
+    mkdir "$wt/seeddemo"; cp "$d/demo_test.go" "$wt/seeddemo/"
+    race=""; [ "$P" = C17 ] && race="-race"
+    (cd "$wt" && go test $race -vet=off -count=1 ./seeddemo/ >/dev/null 2>&1); r_clean=$?
+    if git -C "$wt" apply "$PWD/$d/patch.diff" 2>/dev/null; then
+      (cd "$wt" && go build ./... >/dev/null 2>&1); r_build=$?
+      (cd "$wt" && go test -vet=off -count=1 ./pkg/... >/dev/null 2>&1); r_tests=$?
+      (cd "$wt" && go test $race -vet=off -count=1 ./seeddemo/ >/dev/null 2>&1); r_changed=$?
+      v=OK; { [ $r_clean -ne 0 ] || [ $r_build -ne 0 ] || [ $r_tests -ne 0 ] || [ $r_changed -eq 0 ]; } && v=STALE
+      echo "$id: $v (demo unchanged=$r_clean; with change: build=$r_build tests=$r_tests demo=$r_changed)"
+    else
+      echo "$id: STALE (patch does not apply)"
+    fi
+    git -C /repo worktree remove --force "$wt" >/dev/null 2>&1
+  done
+  ;;
 runall)
   for d in seeded/*/; do id=$(basename "$d"); "$0" run "$id"; done
   ;;
